@@ -783,10 +783,17 @@ func (vfs *MemFS) RemoveAll(path string) error {
 	parent.mu.Lock()
 	defer parent.mu.Unlock()
 
-	if c, ok := child.(*dirNode); ok && len(c.children) != 0 {
-		err = vfs.removeAll(c)
-		if err != nil {
-			return &fs.PathError{Op: op, Path: path, Err: err}
+	if c, ok := child.(*dirNode); ok {
+		avfs.VerifBeforeLock(&c.mu, false)
+		c.mu.RLock()
+		empty := len(c.children) == 0
+		c.mu.RUnlock()
+
+		if !empty {
+			err = vfs.removeAll(c)
+			if err != nil {
+				return &fs.PathError{Op: op, Path: path, Err: err}
+			}
 		}
 	}
 
@@ -795,7 +802,10 @@ func (vfs *MemFS) RemoveAll(path string) error {
 	}
 
 	parent.removeChild(pi.Part())
+
+	child.Lock()
 	child.delete()
+	child.Unlock()
 
 	return nil
 }
@@ -817,7 +827,9 @@ func (vfs *MemFS) removeAll(parent *dirNode) error {
 			}
 		}
 
+		child.Lock()
 		child.delete()
+		child.Unlock()
 	}
 
 	return nil
@@ -917,7 +929,9 @@ func (vfs *MemFS) Rename(oldpath, newpath string) (err error) {
 
 			return &os.LinkError{Op: op, Old: oldpath, New: newpath, Err: err}
 		default:
+			nc.Lock()
 			nc.delete()
+			nc.Unlock()
 		}
 	}
 
